@@ -1,7 +1,9 @@
 //! Graceful shutdown of the real endpoint (`Core::listen` on a loopback port) with live sessions of every transport.
 //! in : [sessions mask: 1 = HTTP/1.1 tunnel in use, 2 = HTTP/2 connection with an open tunnel stream, 4 = HTTP/3 (QUIC) connection with
 //!       an open tunnel stream, 8 = idle TLS connection (HTTP/1.1, no request yet), 16 = idle HTTP/2 connection,
-//!       32 = before the submission, wait 300 ms for completion (it must stay pending: the listener is a participant)]
+//!       32 = before the submission, wait 300 ms for completion (it must stay pending: the listener is a participant),
+//!       64 = HTTP/1.1 tunnel whose upload is stalled: the destination accepts and never reads, the client has written until
+//!            nothing more was taken for 400 ms (the whole path is full: the session holds a chunk it cannot hand on)]
 //! out: [996] | [sessions established mask,
 //!       listener returned Ok after the submission,
 //!       wound-down mask (HTTP/1.1: closed by the endpoint; HTTP/2: GOAWAY / connection ended; HTTP/3: QUIC connection closed),
@@ -40,6 +42,17 @@ pub fn run(toks: Vec<Tok>) -> Vec<Tok> {
                 }
             }
         });
+        // a destination that accepts and never reads (bit 64)
+        let deaf_l = TcpListener::bind("127.0.0.1:0").await.unwrap();
+        let deaf = deaf_l.local_addr().unwrap();
+        tokio::spawn(async move {
+            let mut held = vec![];
+            loop {
+                if let Ok((s, _)) = deaf_l.accept().await {
+                    held.push(s);
+                }
+            }
+        });
         let make = move |addr: std::net::SocketAddr| {
             Settings::builder()
                 .listen_address(addr)
@@ -74,6 +87,45 @@ pub fn run(toks: Vec<Tok>) -> Vec<Tok> {
                 if acc.starts_with(b"HTTP/1.1 200") && matches!(tokio::time::timeout(Duration::from_secs(2), s.read(&mut buf)).await, Ok(Ok(1))) {
                     established |= 1;
                     h1 = Some(s);
+                }
+            }
+        }
+        // 64: HTTP/1.1 tunnel with a stalled upload
+        let mut h1_stalled = None;
+        if mask & 64 != 0 {
+            if let Some(mut s) = crate::front::tls_connect(ep.addr, "localhost", &[b"http/1.1"]).await {
+                let _ = s.write_all(format!("CONNECT {} HTTP/1.1\r\nHost: x\r\n\r\n", deaf).as_bytes()).await;
+                let mut acc = vec![];
+                let mut buf = [0u8; 1024];
+                while !acc.windows(4).any(|w| w == b"\r\n\r\n") {
+                    match tokio::time::timeout(Duration::from_secs(3), s.read(&mut buf)).await {
+                        Ok(Ok(n)) if n > 0 => acc.extend_from_slice(&buf[..n]),
+                        _ => break,
+                    }
+                }
+                if acc.starts_with(b"HTTP/1.1 200") {
+                    // upload until the path takes nothing more (at most 256 MiB)
+                    let chunk = vec![0x55u8; 64 * 1024];
+                    let mut stalled = false;
+                    for _ in 0..4096 {
+                        match tokio::time::timeout(Duration::from_millis(400), async {
+                            s.write_all(&chunk).await?;
+                            s.flush().await
+                        })
+                        .await
+                        {
+                            Ok(Ok(())) => continue,
+                            Ok(Err(_)) => break,
+                            Err(_) => {
+                                stalled = true;
+                                break;
+                            }
+                        }
+                    }
+                    if stalled {
+                        established |= 64;
+                        h1_stalled = Some(s);
+                    }
                 }
             }
         }
@@ -164,7 +216,7 @@ pub fn run(toks: Vec<Tok>) -> Vec<Tok> {
             }
         };
         let mut watchers = vec![];
-        for (bit, s) in [(1u128, h1), (8u128, idle)] {
+        for (bit, s) in [(1u128, h1), (8u128, idle), (64u128, h1_stalled)] {
             if let Some(mut s) = s {
                 let mark = mark.clone();
                 watchers.push(tokio::spawn(async move {
